@@ -14,3 +14,8 @@ func (cb *CircuitBreaker) VerifRewind(d time.Duration) {
 
 // VerifLastFailure returns the raw stored stamp (0 = never).
 func (cb *CircuitBreaker) VerifLastFailure() int64 { return cb.lastFailureTime.Load() }
+
+// VerifLifecycleBreaker returns the breaker a LifecycleUnifier keeps for an endpoint (through its own manager).
+func VerifLifecycleBreaker(u *LifecycleUnifier, endpointURL string) *CircuitBreaker {
+	return u.endpointManager.GetCircuitBreaker(endpointURL)
+}
